@@ -1,4 +1,6 @@
 import FluentVerif.Driver.Render
+import FluentVerif.Driver.Tree
+import FluentVerif.Forward.Spec
 /-! driver operations on the codec: DEC (decode) -/
 namespace FV.Driver
 
@@ -106,6 +108,128 @@ def opDEC (args obs : List String) : Option DecOut :=
           else some s!"model=[{m}] go=[{go}]"
         some { corr := corr, fails := f10 ++ f13 ++ f18 ++ fAlloc,
                branch := s!"dec.{ty}.{ps}.{cls}.{if rv = "F" then "F" else "U"}.{kind}" }
+    | _, _ => none
+  | _ => none
+
+end FV.Driver
+
+namespace FV.Driver
+open FV.Spec in
+/-- the grammar the specification prescribes for the message kind named by the token -/
+def specGrammar (name : String) (o : Obj) : Option Bool :=
+  match name with
+  | "MSG" => some (isMessage o)
+  | "EXT" => some (isMessageExt o)
+  | "FWD" => some (isForward o)
+  | "PFM" => some (isPacked o)
+  | "EEX" => some (isEntry o)
+  | "OPT" => some (isOptionMap o)
+  | "ACK" => some (isAck o)
+  | "HELO" => some (isHelo o || (match o with | .arr xs => (match objsToList xs with | [.str _, .nil] => true | _ => false) | _ => false))
+  | "PING" => some (isPing o)
+  | "PONG" => some (isPong o)
+  | _ => none
+
+def tokTypeName : String → String
+  | "MSG" => "Message" | "EXT" => "MessageExt" | "FWD" => "Forward" | "PFM" => "Packed"
+  | "ENT" => "Entry" | "EEX" => "EntryExt" | "ELS" => "EntryList" | "OPT" => "Options"
+  | "ACK" => "Ack" | "HOP" => "HeloOpts" | "HELO" => "Helo" | "PING" => "Ping" | "PONG" => "Pong"
+  | s => s
+
+/-- canonical rendering of the value the token denotes (what a faithful round trip must return) -/
+def expectedRender : Tree → Option String
+  | .node "MSG" [tag, ts, v, o] => do
+    let tag ← treeHex tag; let ts ← treeInt ts; let v ← treeGoVal v; let o ← treeOptions o
+    pure (renderMessage { tag := tag, ts := ts, record := v.toObj, options := o })
+  | .node "EXT" [tag, ts, v, o] => do
+    let tag ← treeHex tag; let ts ← treeInstant ts; let v ← treeGoVal v; let o ← treeOptions o
+    pure (renderMessageExt { tag := tag, ts := ts, record := v.toObj, options := o })
+  | .node "FWD" [tag, .node "L" es, o] => do
+    let tag ← treeHex tag; let es ← treeEntries es; let o ← treeOptions o
+    pure (renderForward { tag := tag, entries := es.map fun (t, v) => { ts := t, record := v.toObj }, options := o })
+  | .node "PFM" [tag, s, o] => do
+    let tag ← treeHex tag; let s ← treeHex s; let o ← treeOptions o
+    pure (renderPacked { tag := tag, stream := s, options := o })
+  | .node "ENT" [ts, v] => do
+    let ts ← treeInt ts; let v ← treeGoVal v
+    pure (renderEntry { ts := ts, record := v.toObj })
+  | .node "EEX" [ts, v] => do
+    let ts ← treeInstant ts; let v ← treeGoVal v
+    pure (renderEntryExt { ts := ts, record := v.toObj })
+  | .node "ELS" [.node "L" es] => do
+    let es ← treeEntries es
+    pure (renderEntries (es.map fun (t, v) => { ts := t, record := v.toObj }))
+  | .node "OPT" [o] => do
+    let o ← treeOptions o
+    pure (renderOptions o)
+  | .node "ACK" [a] => do
+    let a ← treeHex a
+    pure (renderAck { ack := a })
+  | .node "HOP" [n, a, k] => do
+    let n ← treeHex n; let a ← treeHex a; let k ← treeBool k
+    pure (renderHeloOpts { nonce := n, auth := a, keepalive := k })
+  | .node "HELO" [mt, o] => do
+    let mt ← treeHex mt
+    let o ← (match o with
+      | .atom "N" => some none
+      | .node "H" [n, a, k] => do
+        let n ← treeHex n; let a ← treeHex a; let k ← treeBool k
+        pure (some ({ nonce := n, auth := a, keepalive := k } : HeloOpts))
+      | _ => none)
+    pure (renderHelo { mtype := mt, options := o })
+  | .node "PING" [mt, h, s, d, u, p] => do
+    let mt ← treeHex mt; let h ← treeHex h; let s ← treeHex s; let d ← treeHex d; let u ← treeHex u; let p ← treeHex p
+    pure (renderPing { mtype := mt, hostname := h, salt := s, digest := d, username := u, password := p })
+  | .node "PONG" [mt, a, r, h, d] => do
+    let mt ← treeHex mt; let a ← treeBool a; let r ← treeHex r; let h ← treeHex h; let d ← treeHex d
+    pure (renderPong { mtype := mt, authResult := a, reason := r, hostname := h, digest := d })
+  | _ => none
+
+/-- `RT encpath decpath token => hex <decode obs> | err` : encode with the real encoder, decode the
+result with the real decoder -/
+def opRT (args obs : List String) : Option DecOut :=
+  match args with
+  | [ep, dp, tok] =>
+    match parsePath dp, parseTok tok with
+    | some p, some t =>
+      let name := match t with | .node n _ => n | .atom a => a
+      match encodeModel t with
+      | none => none
+      | some menc =>
+        match obs with
+        | ["err"] =>
+          some { corr := if menc.isNone then none else some "model encodes, go=err",
+                 fails := if menc.isNone then [] else ["C01 encodable-message-rejected"],
+                 branch := s!"rt.{name}.{ep}{dp}.err" }
+        | hx :: dobs =>
+          match parseHex hx with
+          | none => none
+          | some gb =>
+            let go := " ".intercalate dobs
+            let corrEnc := match menc with
+              | some mb => if mb == gb then none else some s!"enc model={toHex mb} go={toHex gb}"
+              | none => some "model=err go encodes"
+            let mdec := (decodeModel (tokTypeName name) p none gb).getD "?"
+            let corrDec := if mdec == go then none else some s!"dec model=[{mdec}] go=[{go}]"
+            let corr := match corrEnc, corrDec with
+              | some a, _ => some a
+              | none, some b => some b
+              | none, none => none
+            -- C01: the decoded value is the original, nothing left over
+            let f01 := match expectedRender t with
+              | some e => if go == s!"ok {gb.length} {e}" then [] else [s!"C01 roundtrip expected=[ok {gb.length} {e}] got=[{go}]"]
+              | none => []
+            -- C02: the bytes are the structure the specification prescribes
+            let f02 := match parse gb with
+              | some (o, []) =>
+                (match specGrammar name o with
+                 | some false => ["C02 grammar"]
+                 | _ => []) ++
+                (if Spec.extZeroAllFixext8 (gb.length + 1) gb then [] else ["C02 EventTime-not-fixext8"])
+              | _ => if name == "PCK" then [] else ["C02 not-one-msgpack-value"]
+            let f09 := if menc.isNone then ["C09 unencodable-value-encoded"] else []
+            some { corr := corr, fails := f01 ++ f02 ++ f09, branch := s!"rt.{name}.{ep}{dp}.ok" }
+        | [] => none
     | _, _ => none
   | _ => none
 
